@@ -6,6 +6,7 @@ package main
 import (
 	"fmt"
 	"go/ast"
+	"go/constant"
 	"go/token"
 	"go/types"
 	"golang.org/x/tools/go/packages"
@@ -4720,6 +4721,362 @@ func ruleLockCoversItsLine(r *Run, rule string) {
 					}
 				}
 				scan(fd.Body)
+			}
+		}
+	}
+}
+
+// ruleModifiedLeavesByWriteBack (R06.21 / R05.23): wherever the coherence layer decides, by
+// the MSI state of a line, which command removes the line from a core's cache, the case of the
+// MODIFIED state sends the command whose handler writes the line to the next level (memory
+// or the outer cache); the cases of the other states send one whose handler does not. A
+// modified line removed by a plain evict loses its stores.
+func ruleModifiedLeavesByWriteBack(r *Run, rule string) {
+	w := r.W
+	for _, v := range variants(w) {
+		if v.pkg == nil || !v.pipelined() || !usesLineLocks(w, v) {
+			continue
+		}
+		info := v.info
+		writesOut := func(n ast.Node) bool {
+			return w.reaches(info, n, func(fn *types.Func) bool {
+				// writes the memory image, or writes into a cache (the outer level)
+				if sig, ok := fn.Type().(*types.Signature); ok && sig.Recv() != nil && isCompType(sig.Recv().Type(), "LRUCache") && fn.Name() == "Write" {
+					return true
+				}
+				fd, pk := w.FuncDecl(fn)
+				if fd == nil || fd.Body == nil {
+					return false
+				}
+				found := false
+				ast.Inspect(fd.Body, func(k ast.Node) bool {
+					if as, ok := k.(*ast.AssignStmt); ok {
+						for _, l := range as.Lhs {
+							if ix, ok := ast.Unparen(l).(*ast.IndexExpr); ok && ctxFieldWritten(pk.TypesInfo, ix.X) == "Memory" {
+								found = true
+							}
+						}
+					}
+					return true
+				})
+				return found
+			})
+		}
+		handlerWrites := func(c types.Object) (bool, bool) {
+			found, writes := false, false
+			for _, f := range v.pkg.Syntax {
+				ast.Inspect(f, func(k ast.Node) bool {
+					cc, ok := k.(*ast.CaseClause)
+					if !ok {
+						return true
+					}
+					for _, e := range cc.List {
+						if id, ok := ast.Unparen(e).(*ast.Ident); ok && info.Uses[id] == c {
+							// only the snoop dispatch: the case body appends a job / handles the request
+							found = true
+							for _, st := range cc.Body {
+								if writesOut(st) {
+									writes = true
+								}
+							}
+						}
+					}
+					return true
+				})
+			}
+			return found, writes
+		}
+		// the state constants: the type of the switch tag; "modified" is the state whose lock acquisition is exclusive…
+		// identified structurally: the state constant under which an evict-helper sends the write-back-capable command
+		// is what we check; so enumerate switch statements over the state type whose cases return a send(...) call.
+		for _, f := range v.pkg.Syntax {
+			for _, d := range f.Decls {
+				fd, ok := d.(*ast.FuncDecl)
+				if !ok || fd.Body == nil {
+					continue
+				}
+				n := 0
+				ast.Inspect(fd.Body, func(m ast.Node) bool {
+					sw, ok := m.(*ast.SwitchStmt)
+					if !ok || sw.Tag == nil {
+						return true
+					}
+					// the const group (one `const ( … )` declaration) a constant belongs to
+					groupOf := func(o types.Object) *ast.GenDecl {
+						for _, f2 := range v.pkg.Syntax {
+							for _, d2 := range f2.Decls {
+								if gd, ok := d2.(*ast.GenDecl); ok && gd.Tok == token.CONST && gd.Pos() <= o.Pos() && o.Pos() < gd.End() {
+									return gd
+								}
+							}
+						}
+						return nil
+					}
+					// the switch is over the coherence STATE: all its case constants come from one const group,
+					// and that group also holds the constant the state table's default (zero) value names
+					var stateGroup *ast.GenDecl
+					okSwitch := true
+					for _, c := range sw.Body.List {
+						for _, e := range c.(*ast.CaseClause).List {
+							id, ok := ast.Unparen(e).(*ast.Ident)
+							if !ok {
+								okSwitch = false
+								continue
+							}
+							co, ok := info.Uses[id].(*types.Const)
+							if !ok || co.Pkg() != v.pkg.Types {
+								okSwitch = false
+								continue
+							}
+							g := groupOf(co)
+							if stateGroup == nil {
+								stateGroup = g
+							} else if g != stateGroup {
+								okSwitch = false
+							}
+						}
+					}
+					if !okSwitch || stateGroup == nil {
+						return true
+					}
+					type arm struct {
+						states []string
+						c      types.Object
+					}
+					var arms []arm
+					for _, c := range sw.Body.List {
+						cc := c.(*ast.CaseClause)
+						if len(cc.List) == 0 || len(cc.Body) != 1 {
+							continue
+						}
+						rs, ok := cc.Body[0].(*ast.ReturnStmt)
+						if !ok || len(rs.Results) != 1 {
+							continue
+						}
+						call, ok := ast.Unparen(rs.Results[0]).(*ast.CallExpr)
+						if !ok || len(call.Args) == 0 {
+							continue
+						}
+						id, ok := ast.Unparen(call.Args[len(call.Args)-1]).(*ast.Ident)
+						if !ok {
+							continue
+						}
+						co, ok := info.Uses[id].(*types.Const)
+						if !ok {
+							continue
+						}
+						var names []string
+						for _, e := range cc.List {
+							if sid, ok := ast.Unparen(e).(*ast.Ident); ok {
+								names = append(names, sid.Name)
+							}
+						}
+						arms = append(arms, arm{names, co})
+					}
+					if len(arms) < 2 {
+						return true
+					}
+					n++
+					// exactly the arms whose handler writes out must be the arms of the exclusive (dirty-capable) state: the
+					// state under which the lock functions take the EXCLUSIVE lock for a read — structurally, the last
+					// declared constant of the state type
+					var dirtyState string
+					scope := v.pkg.Types.Scope()
+					var best int64 = -1
+					for _, nm := range scope.Names() {
+						if c, ok := scope.Lookup(nm).(*types.Const); ok && groupOf(c) == stateGroup {
+							if val, ok := constant.Int64Val(c.Val()); ok && val > best {
+								best, dirtyState = val, nm
+							}
+						}
+					}
+					good := true
+					var desc []string
+					for _, a := range arms {
+						isDirtyArm := false
+						for _, s := range a.states {
+							if s == dirtyState {
+								isDirtyArm = true
+							}
+						}
+						found, writes := handlerWrites(a.c)
+						desc = append(desc, fmt.Sprintf("%v->%s(writes out: %v)", a.states, a.c.Name(), writes))
+						if !found || writes != isDirtyArm {
+							good = false
+						}
+					}
+					r.check(good, rule, fmt.Sprintf("%s.%s:state-switch#%d", v.rel, declName(fd), n), sw.Pos(), "a line in the %s state leaves a cache by the command whose handler writes it out, a line in another state by one that does not: %v", dirtyState, desc)
+					return true
+				})
+			}
+		}
+	}
+}
+
+// ruleAccessOwnsItsBookkeeping (R07.32): the function that performs one kind of access (the
+// entry of the read coroutine, of the write coroutine) keeps to its own bookkeeping: (a) it
+// resets / suspends only the coroutine it is the entry of, never a sibling coroutine of the
+// same unit (a read that resets the write coroutine abandons a store in flight and never
+// returns to its own start); (b) the lock handles it forgets are deleted from a table it
+// records handles in (a handle deleted from the other table stays recorded and is released a
+// second time by the next flush).
+func ruleAccessOwnsItsBookkeeping(r *Run, rule string) {
+	w := r.W
+	bind := w.coroutineBindings()
+	entryOf := map[*types.Func]*types.Var{}
+	for fld, fns := range bind {
+		for _, fn := range fns {
+			entryOf[fn] = fld
+		}
+	}
+	for _, v := range variants(w) {
+		if v.pkg == nil || !v.pipelined() || !usesLineLocks(w, v) {
+			continue
+		}
+		info := v.info
+		for _, f := range v.pkg.Syntax {
+			for _, d := range f.Decls {
+				fd, ok := d.(*ast.FuncDecl)
+				if !ok || fd.Body == nil {
+					continue
+				}
+				fn, _ := info.Defs[fd.Name].(*types.Func)
+				own := entryOf[fn]
+				if own == nil {
+					continue
+				}
+				// (a)
+				var foreign []string
+				nOps := 0
+				ast.Inspect(fd.Body, func(k ast.Node) bool {
+					call, ok := k.(*ast.CallExpr)
+					if !ok {
+						return true
+					}
+					sel, ok := call.Fun.(*ast.SelectorExpr)
+					if !ok || !isCoroutineNamed(info.TypeOf(sel.X)) {
+						return true
+					}
+					switch sel.Sel.Name {
+					case "Reset", "Checkpoint", "ExecuteWithCheckpoint", "ExecuteWithCheckpointAfter", "ExecuteWithReset":
+					default:
+						return true
+					}
+					if fs, ok := ast.Unparen(sel.X).(*ast.SelectorExpr); ok {
+						if s := info.Selections[fs]; s != nil && s.Kind() == types.FieldVal {
+							nOps++
+							if s.Obj() != own {
+								foreign = append(foreign, s.Obj().Name()+"."+sel.Sel.Name)
+							}
+						}
+					}
+					return true
+				})
+				if nOps > 0 {
+					sort.Strings(foreign)
+					r.check(len(foreign) == 0, rule, fmt.Sprintf("%s.%s:own-coroutine(%s)", v.rel, declName(fd), own.Name()), fd.Pos(), "the entry of coroutine %s resets and suspends only that coroutine (operations on sibling coroutines: %v)", own.Name(), foreign)
+				}
+				_ = own
+			}
+		}
+		// (b) per function that forgets a handle: the coroutine it resets in the same function names the access kind;
+		// the entry of that coroutine (and the methods it hands control to) must record handles in the table deleted from
+		semTable := func(e ast.Expr) *types.Var {
+			sel, ok := ast.Unparen(e).(*ast.SelectorExpr)
+			if !ok {
+				return nil
+			}
+			s := info.Selections[sel]
+			if s == nil || s.Kind() != types.FieldVal {
+				return nil
+			}
+			if mt, ok := s.Obj().Type().Underlying().(*types.Map); ok && isCompType(mt.Elem(), "Sem") {
+				return s.Obj().(*types.Var)
+			}
+			return nil
+		}
+		recordedBy := func(fld *types.Var) map[*types.Var]bool {
+			out := map[*types.Var]bool{}
+			seen := map[*types.Func]bool{}
+			var visit func(fn *types.Func, depth int)
+			visit = func(fn *types.Func, depth int) {
+				if seen[fn] || depth > 3 {
+					return
+				}
+				seen[fn] = true
+				fd, pk := w.FuncDecl(fn)
+				if fd == nil || fd.Body == nil || pk != v.pkg {
+					return
+				}
+				ast.Inspect(fd.Body, func(k ast.Node) bool {
+					if as, ok := k.(*ast.AssignStmt); ok {
+						for _, l := range as.Lhs {
+							if ix, ok := ast.Unparen(l).(*ast.IndexExpr); ok {
+								if t := semTable(ix.X); t != nil {
+									out[t] = true
+								}
+							}
+						}
+					}
+					return true
+				})
+				for _, c := range calleesIn(info, fd.Body) {
+					if sig, ok := c.Type().(*types.Signature); ok && sig.Recv() != nil && c.Pkg() == v.pkg.Types {
+						visit(c.Origin(), depth+1)
+					}
+				}
+			}
+			for _, e := range bind[fld] {
+				visit(e, 0)
+			}
+			return out
+		}
+		for _, f := range v.pkg.Syntax {
+			for _, d := range f.Decls {
+				fd, ok := d.(*ast.FuncDecl)
+				if !ok || fd.Body == nil || strings.EqualFold(fd.Name.Name, "flush") {
+					continue
+				}
+				var deleted []*types.Var
+				var resets []*types.Var
+				ast.Inspect(fd.Body, func(k ast.Node) bool {
+					x, ok := k.(*ast.CallExpr)
+					if !ok {
+						return true
+					}
+					if id, ok := x.Fun.(*ast.Ident); ok && id.Name == "delete" && len(x.Args) == 2 {
+						if t := semTable(x.Args[0]); t != nil {
+							deleted = append(deleted, t)
+						}
+					}
+					if sel, ok := x.Fun.(*ast.SelectorExpr); ok && sel.Sel.Name == "Reset" && isCoroutineNamed(info.TypeOf(sel.X)) {
+						if fs, ok := ast.Unparen(sel.X).(*ast.SelectorExpr); ok {
+							if s := info.Selections[fs]; s != nil && s.Kind() == types.FieldVal {
+								resets = append(resets, s.Obj().(*types.Var))
+							}
+						}
+					}
+					return true
+				})
+				if len(deleted) == 0 || len(resets) == 0 {
+					continue
+				}
+				{
+					recorded := map[*types.Var]bool{}
+					for _, fld := range resets {
+						for t := range recordedBy(fld) {
+							recorded[t] = true
+						}
+					}
+					var wrong []string
+					for _, t := range deleted {
+						if !recorded[t] {
+							wrong = append(wrong, t.Name())
+						}
+					}
+					sort.Strings(wrong)
+					r.check(len(wrong) == 0, rule, fmt.Sprintf("%s.%s:own-lock-table", v.rel, declName(fd)), fd.Pos(), "the lock handles the access forgets are deleted from a table the access records handles in (deleted from tables it never records in: %v)", wrong)
+				}
 			}
 		}
 	}
